@@ -575,6 +575,11 @@ func (mq *MessageQueue) sendMessage() {
 		// Convert want lists to a Bitswap Message
 		message, onSent := mq.extractOutgoingMessage(supportsHave)
 		if message.Empty() {
+			// Every entry that fit may have been withdrawn while the message
+			// was built; entries that did not fit must still be sent.
+			if mq.pendingWorkCount() > 0 {
+				mq.signalWorkReady()
+			}
 			return
 		}
 
